@@ -27,7 +27,8 @@ PLANS = {
     "C03": {"quick": [("enum", "d3", 4, 3, []), ("book", "disciplined", 1200, 60, []), ("book", "toggle", 600, 60, []), ("book", "modify", 900, 60, []), ("book", "mixed", 600, 80, ["--levels", "1,3,10"])],
             "thorough": [("enum", "d4", 16, 4, []), ("book", "disciplined", 10000, 120, []), ("book", "toggle", 4000, 120, []), ("book", "modify", 4000, 120, []),
                          ("book", "wide", 2000, 100, []), ("market", "plain", 1000, 100, []), ("book", "mixed", 3000, 120, ["--levels", "1,3,10"])]},
-    "C04": {"quick": [("enum", "d3", 4, 3, []), ("book", "redundant", 1500, 80, []), ("book", "toggle", 600, 60, []), ("book", "modify", 450, 60, []), ("book", "mixed", 600, 80, ["--levels", "1,3,10"])],
+    "C04": {"quick": [("enum", "d3", 4, 3, []), ("book", "redundant", 1500, 80, []), ("book", "toggle", 600, 60, []), ("book", "modify", 450, 60, []), ("book", "mixed", 600, 80, ["--levels", "1,3,10"]),
+                      ("book", "wide", 300, 60, [])],
             "thorough": [("enum", "d3", 4, 3, []), ("enum", "d3tick1", 4, 3, ["--tick", "1"]), ("book", "redundant", 8000, 150, []), ("book", "toggle", 3000, 120, []), ("book", "disciplined", 3000, 120, []),
                          ("book", "modify", 3000, 120, []), ("book", "mixed", 3000, 120, ["--levels", "1,3,10"])]},
     "C05": {"quick": [("enum", "d3ties", 4, 3, ["--ties", "1"]), ("book", "ties", 1500, 60, []), ("book", "ties", 600, 60, ["--prices", "2"]),
@@ -45,7 +46,9 @@ PLANS = {
                       ("env", "toggle", 300, 8, []), ("menv", "toggle", 300, 8, []), ("env", "long", 16, 250, []), ("menv", "long", 16, 250, [])],
             "thorough": [("env", "long", 64, 1500, []), ("menv", "long", 64, 1500, []), ("env", "plain", 5000, 12, ["--levels", "1,3,10"]), ("menv", "plain", 4000, 12, ["--levels", "1,3,10"]),
                          ("env", "toggle", 2000, 12, []), ("menv", "toggle", 2000, 12, [])]},
-    "C10": {"quick": [("env", "plain", 600, 8, []), ("menv", "plain", 600, 8, []), ("menv", "toggle", 300, 8, []), ("env", "toggle", 300, 8, [])],
+    # (C10's quantifier - "all interleavings of instruction submissions and steps" - has no batch-size clause: over-full batches belong to it)
+    "C10": {"quick": [("env", "plain", 600, 8, []), ("menv", "plain", 600, 8, []), ("menv", "toggle", 300, 8, []), ("env", "toggle", 300, 8, []),
+                      ("env", "overfull", 300, 8, []), ("menv", "overfull", 300, 8, [])],
             "thorough": [("env", "plain", 4000, 12, ["--levels", "1,3,10"]), ("menv", "plain", 4000, 12, ["--levels", "1,3,10"]),
                          ("menv", "toggle", 2000, 12, []), ("env", "toggle", 2000, 12, [])]},
     "C11": {"quick": [("env", "plain", 600, 10, ["--levels", "1,2,5,10,24"]), ("menv", "plain", 600, 10, ["--levels", "1,3,10"]),
